@@ -81,7 +81,7 @@ def _decode_int(v: str) -> int:
     int_v = int(v)
     if isinstance(v, bool):
         warnings.warn(UnsafeCastingWarning(raw_value=v, decoded_value=int_v))
-    elif int_v != float(v):
+    elif not isinstance(v, int) and int_v != float(v):
         warnings.warn(UnsafeCastingWarning(raw_value=v, decoded_value=int_v))
     return int_v
 
